@@ -126,3 +126,22 @@ Print Assumptions C03_source_quadratic_interval_relu.
 Example C03_source_nonvacuous : gen_po2_exponents 4 None false = (-4, 3) /\ gen_po2_exponents 2 (Some (2, 1)) false = (-1, 0) /\
   gen_rpo2_exponents 4 (Some (1, 1)) false = (-16, 15) /\ gen_po2_exponents 4 None true = (-4, 2).
 Proof. vm_compute. repeat split. Qed.
+
+(* ---- the rounding step, exactly, given the value the float32 log kernel returned (the oracle) ---- *)
+Theorem C03_exponent_from_log_in_range : forall m mn mx l, mn <= mx -> mn <= exp_from_log m mn mx l <= mx.
+Proof. exact exp_from_log_in_range. Qed.
+Print Assumptions C03_exponent_from_log_in_range.
+Theorem C03_rnd_exponent_is_nearest_to_the_returned_log_ties_to_even : forall mn mx l,
+  0 < rden l -> mn <= rhe (rnum l) (rden l) <= mx ->
+  let e := exp_from_log LRnd mn mx l in
+  2 * Z.abs (e * rden l - rnum l) <= rden l /\ (2 * (rnum l mod rden l) = rden l -> Z.even e = true).
+Proof. exact exp_from_log_rnd_nearest. Qed.
+Print Assumptions C03_rnd_exponent_is_nearest_to_the_returned_log_ties_to_even.
+Theorem C03_floor_exponent_is_floor_of_the_returned_log : forall mn mx l, 0 < rden l -> mn <= rnum l / rden l <= mx ->
+  let e := exp_from_log LFloor mn mx l in e * rden l <= rnum l < (e + 1) * rden l.
+Proof. exact exp_from_log_floor. Qed.
+Print Assumptions C03_floor_exponent_is_floor_of_the_returned_log.
+Theorem C03_exponent_checker_sound : forall m mn mx lb e, chk_exp_from_log m mn mx lb e = 0 ->
+  exists l, f32_dec lb = Some l /\ e = exp_from_log m mn mx l.
+Proof. exact chk_exp_from_log_sound. Qed.
+Print Assumptions C03_exponent_checker_sound.
